@@ -17,6 +17,8 @@
             the model), 5 / 6 the type-level length written as an alias named `N` / `T` (ignored by the model); 3 generated program whose repeat operand is a path to a `const` item of
             the (non-Copy) element type: the operand is a ConstPath, nothing is logged for it
             10 box_arr![x; N] inside a fn generic over N (ignored by the model);
+            13 the list elements are non-Copy local variables moved into the invocation (evaluated, in order, when they
+            are bound: the same log; ignored by the model);
             12 the invocation sits in a scope that shadows Box / Vec / GenericArray / Option / Default / vec! (ignored by
             the model: every path of the transcribers starts with $crate);
             11 the FIRST element of a list form carries `#[cfg(any())]`: it is compiled out before the macro's
